@@ -628,3 +628,21 @@ fn c05_len_prefix_under_compressor_ns() {
 fn c05_len_prefix_under_compressor_mx() {
     len_prefix_under_compressor::<3>()
 }
+
+// @funcs: Nsec3Salt::from_octets, OwnerHash::from_octets (one-octet length prefix on the wire)
+// @bound: octet strings of every length 0..=300, arbitrary content: accepted exactly up to 255 octets (what the length octet can express)
+#[kani::proof]
+#[kani::unwind(4)]
+fn c05_salt_and_hash_length_limits() {
+    let buf: [u8; 300] = kani::any();
+    let n: usize = kani::any();
+    kani::assume(n <= 300);
+    let s = Nsec3Salt::from_octets(&buf[..n]);
+    let h = OwnerHash::from_octets(&buf[..n]);
+    assert!(s.is_ok() == (n <= 255));
+    assert!(h.is_ok() == (n <= 255));
+    if let (Ok(s), Ok(h)) = (s, h) {
+        assert!(s.as_slice().len() == n && h.as_slice().len() == n);
+    }
+    kani::cover!(n == 255, "maximal salt");
+}
